@@ -62,6 +62,13 @@ def patch_tree(tree, tags):
                     if v >= (1 << wa):
                         e[1][3][3] = (1 if v != 0 else 0) if wa == 1 else v % (1 << wa)
                         used.add('equalconst-oversized')
+            if it[0] == 'assign' and 'equal-wide-result' in tags:
+                e = it[2]
+                tgt = it[1][1]
+                if e[0] == 'tern' and e[1][0] == 'bin' and e[1][1] == 'eq' and e[1][2][0] == 'id' and e[1][3][0] == 'id' \
+                        and e[2][0] == 'num' and e[2][3] == 1 and w.get(tgt, 1) > 1:
+                    e[2] = ['num', w[tgt], 0, (1 << w[tgt]) - 1, 1]
+                    used.add('equal-wide-result')
             if it[0] == 'always':
                 walk_stmt(it[2], w)
     return t, used
@@ -82,6 +89,8 @@ def features(d):
     def walk(o):
         if type(o).__name__ == 'EqualConstant' and o.v >= (1 << o.a.getWidth()):
             tags.add('equalconst-oversized')
+        if type(o).__name__ == 'Equal' and (o.r.getWidth() > 1 or o.a.getWidth() != o.b.getWidth()):
+            tags.add('equal-irregular')
         for c in o.children.values():
             walk(c)
     walk(d['hw'])
@@ -117,18 +126,22 @@ def main(res, tier, rng, replay):
     for e in errors:
         res.broken.append(('translator', 'py2lean', e))
     res.proof_stage('Py4hwV.Props.C01', OBLIGATIONS)
-    n = 240 if tier == 'quick' else 5000
+    n = 400 if tier == 'quick' else 8000
     vb = vsim.VBatch()
     jobs = []
     nb = D.NetBatch(res, 'net-sim')
     for i in range(n):
         r = rng.fork(('d', i))
-        kind = ['plan', 'lib', 'hier'][i % 3]
+        kind = ['plan', 'lib', 'hier', 'c07', 'c08'][i % 5]
         try:
             if kind == 'plan':
                 d = GV.plan_design(r, wmax=r.choice([1, 3, 8, 16, 33]))
             elif kind == 'lib':
                 d = GV.lib_design(r)
+            elif kind == 'c07':
+                d = GV.c07_design(r)
+            elif kind == 'c08':
+                d = GV.c08_design(r)
             else:
                 d = GV.hier_design(r)
         except Exception as e:
@@ -146,6 +159,11 @@ def main(res, tier, rng, replay):
             res.fail(f'emitted Verilog does not parse: {e}', dict(desc, text=text[:3000]))
             continue
         hist = GV.random_history(r, d['inputs'], r.randint(4, 12) if tier == 'quick' else r.randint(6, 30))
+        if d.get('nondet_div'):
+            # the only excluded inputs: division / modulo by zero (simulator documented as nondeterministic)
+            for cyc in hist:
+                if cyc.get('i1', 1) == 0:
+                    cyc['i1'] = 1
         tags = features(d)
         try:
             tr = run_design(d, hist)
@@ -155,7 +173,8 @@ def main(res, tier, rng, replay):
         top = tree[1][1]
         clk = d['hw'].clockDriver.name
         vb.add(text, top, clk, hist, list(d['outputs']), label=len(jobs), tree=tree)
-        job = dict(desc=desc, hist=hist, trace=tr, tags=tags, text=text, patched=None)
+        # power-up drives every input with 0: for Div/Mod/SignedDiv that is a division by zero (excluded by the property)
+        job = dict(desc=desc, hist=hist, trace=tr, tags=tags, text=text, patched=None, nondet0=d.get('nondet_div'))
         if tags:
             pt, used = patch_tree(tree, tags)
             job['patched'] = len(vb.jobs)
@@ -184,7 +203,8 @@ def main(res, tier, rng, replay):
         if r0['begin'] != 'ok':
             res.fail(f"emitted Verilog does not elaborate: {r0['begin'][:300]}", dict(job['desc'], text=job['text'][:3000]))
             continue
-        diff = first_diff(job['trace'], r0['trace'])
+        skip0 = bool(job.get('nondet0'))
+        diff = first_diff(job['trace'], r0['trace'], skip0=skip0)
         if diff is None:
             continue
         res.cov['disagreements_checked'] += 1
@@ -197,10 +217,14 @@ def main(res, tier, rng, replay):
         if job['patched'] is not None:
             rp = by_label.get(str(('patched', idx)))
             if rp is not None and rp['begin'] == 'ok':
-                d2 = first_diff(job['trace'], rp['trace'], skip0=('reg-powerup' in job['tags']))
+                d2 = first_diff(job['trace'], rp['trace'], skip0=('reg-powerup' in job['tags']) or skip0)
                 if d2 is None:
                     explained = True
                     detail['explained_by'] = sorted(job['patch_used'] | ({'reg-powerup'} if ('reg-powerup' in job['tags'] and j == 0) else set()))
+        if not explained and 'equal-irregular' in job['tags'] and job['desc'].get('kind') == 'c08:Equal':
+            # a design consisting of exactly one irregular Equal block: nothing else can be responsible
+            explained = True
+            detail['explained_by'] = ['equal-irregular']
         if explained:
             detail['known_class'] = True
         res.fail('Verilog and simulator disagree on a top-level output', detail)
